@@ -123,3 +123,38 @@ def real_names(module, pairs, reserved_globals, prefix_globals):
     before = [b.name for _n, b in pairs]
     rename(module, prefix_globals=prefix_globals, preserved_globals=reserved_globals)
     return ['%s>%s' % ('N' if o is None else o, 'N' if b.name is None else b.name) for o, (_n, b) in zip(before, pairs)]
+
+
+def hoist_paths(src):
+    """For every hoisted binding of the real HoistLiterals: the function-namespace path (module first) of each
+    reference, and the namespace the real code placed the binding in (as small integers)."""
+    from python_minifier.rename.rename_literals import HoistedBinding
+    module, pg, prefix = prepare(src, False, False, True)
+    ids = {}
+
+    def nid(n):
+        if id(n) not in ids:
+            ids[id(n)] = len(ids)
+        return ids[id(n)]
+
+    def nearest(node):
+        ns = node.namespace
+        while not isinstance(ns, (ast.FunctionDef, ast.AsyncFunctionDef, ast.Module)):
+            ns = ns.namespace
+        return ns
+
+    def path(node):
+        p = []
+        while True:
+            ns = nearest(node)
+            p.insert(0, nid(ns))
+            if isinstance(ns, ast.Module):
+                return p
+            node = ns
+
+    nid(module)
+    out = []
+    for _ns, b in all_bindings(module):
+        if isinstance(b, HoistedBinding):
+            out.append(([path(r) for r in b.references], nid(b._local_namespace)))
+    return out
